@@ -11,13 +11,18 @@ inductive Var where
   | a | b | c
   deriving DecidableEq, Repr
 
-/-- integer expressions: `+`, binary and unary `-` over variables and literals -/
+/-- integer expressions: `+`, binary and unary `-` over variables and literals; `wsub x y` is the MACHINE
+difference `x - y` as an iterator's `difference_type` holds it: reduced modulo `2^bits` and read as a signed number
+(`*this - other` of an IntegralRangeIterator, a value cast to `difference_type`); `bits` comes from the environment,
+`bits = 0` stands for exact integers -/
 inductive E where
   | var (v : Var)
   | lit (k : Int)
   | add (x y : E)
   | sub (x y : E)
   | neg (x : E)
+  | wsub (x y : E)
+  | mul (x y : E)
   deriving DecidableEq, Repr
 
 inductive Cmp where
@@ -35,11 +40,18 @@ inductive B where
   | ff
   deriving DecidableEq, Repr
 
-/-- assignment of the three integer variables -/
+/-- assignment of the three integer variables; `bits` = width of the integral type the iterator runs over
+(`0`: exact integers; only `E.wsub` looks at it) -/
 structure Env where
   a : Int := 0
   b : Int := 0
   c : Int := 0
+  bits : Nat := 0
+
+/-- a value reduced to the signed `bits` wide type (two's complement); the identity for `bits = 0` -/
+def wrapS (bits : Nat) (v : Int) : Int :=
+  if bits = 0 then v
+  else if v % 2 ^ bits < 2 ^ (bits - 1) then v % 2 ^ bits else v % 2 ^ bits - 2 ^ bits
 
 /-- assignment of the three boolean atoms -/
 structure BEnv where
@@ -63,6 +75,8 @@ def E.eval (ρ : Env) : E → Int
   | .add x y => x.eval ρ + y.eval ρ
   | .sub x y => x.eval ρ - y.eval ρ
   | .neg x => -(x.eval ρ)
+  | .wsub x y => wrapS ρ.bits (x.eval ρ - y.eval ρ)
+  | .mul x y => x.eval ρ * y.eval ρ
 
 def Cmp.eval (c : Cmp) (x y : Int) : Bool :=
   match c with
@@ -88,5 +102,7 @@ def E.eval2 (e : E) (a b : Int) : Int := e.eval { a := a, b := b }
 def E.eval3 (e : E) (a b c : Int) : Int := e.eval { a := a, b := b, c := c }
 def B.eval2 (e : B) (a b : Int) : Bool := e.eval { a := a, b := b } {}
 def B.eval3 (e : B) (a b c : Int) : Bool := e.eval { a := a, b := b, c := c } {}
+/-- evaluation for a `bits` wide integral type -/
+def B.evalW (e : B) (bits : Nat) (a b : Int) : Bool := e.eval { a := a, b := b, bits := bits } {}
 
 end DV.C16
